@@ -152,6 +152,14 @@ static int init_websocket_peer(struct websocket_peer *ws_peer, struct http_conne
 	return 0;
 }
 
+void destroy_websocket_peer(struct http_connection *connection)
+{
+	struct websocket *ws = connection->parser.data;
+	struct websocket_peer *ws_peer = container_of(ws, struct websocket_peer, websocket);
+	websocket_close(ws, WS_CLOSE_GOING_AWAY);
+	free_websocket_peer(ws_peer);
+}
+
 int alloc_websocket_peer(struct http_connection *connection)
 {
 	struct websocket_peer *ws_peer = cjet_calloc(1, sizeof(*ws_peer));
